@@ -36,37 +36,76 @@ PA = 'atomman/defect/Dislocation/_periodicarray.py'
 
 
 def orient(ctx):
+    """the tail of __set_cells (from the identification of the cut / line axes on) interpreted for the six axis assignments"""
     fn = ctx.fn(DI, 'Dislocation.__set_cells')
     loc = DI + '::Dislocation.__set_cells'
-    chain = [s for s in fn.body if isinstance(s, ast.If) and norm(s.test).replace(' ', '') == 'cutindex==2']
-    ctx.need(len(chain) == 1, '__set_cells: the (cutindex, lineindex) table is not recognisable')
+    start = [i for i, s_ in enumerate(fn.body) if any(isinstance(t, ast.Name) and t.id == 'cutindex' and isinstance(t.ctx, ast.Store) for t in ast.walk(s_))]
+    ctx.need(bool(start), '__set_cells: the statement that identifies the cut axis was not found')
+    first = start[0]
+    while first > 0 and isinstance(fn.body[first - 1], ast.Assign) and any(isinstance(t, ast.Name) and t.id in {n_.id for n_ in ast.walk(fn.body[start[0]]) if isinstance(n_, ast.Name)} for t in fn.body[first - 1].targets):
+        first -= 1          # helper tables used by that statement (e.g. `indices = np.array([0, 1, 2])`)
+    tail = fn.body[first:]
     M, Nn, X = symarray('m', (3,)), symarray('n', (3,)), symarray('x', (3,))
+    unit = lambda k, sgn=1: arr([sgn if i == k else 0 for i in range(3)])
+
+    def run(cut, line, sgn=1):
+        rotated = []
+
+        class Sol(PyStub):
+            pass
+        sol = Sol()
+        sol.n, setattr_xi = unit(cut, sgn), None
+        setattr(sol, 'ξ', unit(line, sgn))
+        sol.m = unit(3 - cut - line) if cut != line else unit((cut + 1) % 3)
+
+        class Prim(PyStub):
+            def rotate(self, uvws, **k):
+                rotated.append(np.asarray(uvws, dtype=object))
+                return 'RCELL'
+
+        class Mil(PyStub):
+            def vector_primitive_to_conventional(self, u, setting=None):
+                return u
+
+            def vector3to4(self, u):
+                return ('FOUR', u)
+        obj = SymObj(ctx.fn(DI, 'Dislocation'), {}, 'self')
+        ev = SymEval(module_aliases(ctx.mod(DI)))
+        ev.globals = {'miller': Mil()}
+        env = {'self': obj, 'dislsol': sol, 'ξ_uvw_p': X, 'm_uvw': M, 'n_uvw': Nn, 'ucell_prim': Prim(), 'ucell': 'UCELL', 'setting': 'p', 'hexindices': False, 'tol': sp.Rational(1, 10 ** 8), 'maxindex': 5}
+        try:
+            q = ev.block(tail, [Path(env)])
+        except WouldRaise:
+            return 'raise', obj, rotated
+        except Opaque as e:
+            raise AnalysisError('__set_cells (cut axis %d, line axis %d): %s' % (cut, line, e))
+        live = [x for x in q if x.done != 'raise']
+        return ('ok' if len(live) == 1 else 'raise'), obj, rotated
     n = 0
     for cut, line in itertools.permutations(range(3), 2):
-        n += 1
-        ev = SymEval(module_aliases(ctx.mod(DI)))
-        q = ev.block([chain[0]], [Path({'cutindex': cut, 'lineindex': line, 'ξ_uvw_p': X, 'm_uvw': M, 'n_uvw': Nn})])
-        u = q[0].env.get('uvws') if len(q) == 1 else None
-        ok = u is not None and np.shape(u) == (3, 3)
-        det = ''
-        if ok:
-            motion = 3 - cut - line
-            # express rows in the basis (m, n, xi): sign-permutation matrix
-            S = sp.zeros(3, 3)
-            for r in range(3):
-                for c, base in enumerate((M, Nn, X)):
-                    if all(sp.simplify(u[r][k] - base[k]) == 0 for k in range(3)):
-                        S[r, c] = 1
-                    elif all(sp.simplify(u[r][k] + base[k]) == 0 for k in range(3)):
-                        S[r, c] = -1
-            ok = S[line, 2] == 1 and S[cut, 1] == 1 and abs(S[motion, 0]) == 1 and S.det() == 1
-            det = 'rows in the (m, n, ξ) basis: %s' % S.tolist()
-        ctx.ob('ORIENT', loc, 'cutindex=%d, lineindex=%d: row %d is the line vector, row %d the plane-normal vector, the third is ±m with the sign that keeps the cell right-handed' % (cut, line, line, cut), bool(ok), det, node=chain[0],
-               key='arm %d %d' % (cut, line))
-    ctx.floor('ORIENT', n, 6)
-    t = norm(fn).replace(' ', '')
-    ctx.ob('ORIENT', loc, 'motionindex = 3 - (lineindex + cutindex); cutindex == lineindex is refused', 'self.__motionindex=3-(lineindex+cutindex)' in t and 'ifcutindex==lineindex:raiseRuntimeError' in t.replace('\n', ''), node=fn, key='motion')
-    ctx.ob('ORIENT', loc, 'the cut / line axes are the Cartesian axes the solution\'s n / ξ point along', "cutindex=indices[np.isclose(np.abs(dislsol.n),1.0)][0]" in t and "lineindex=indices[np.isclose(np.abs(dislsol.ξ),1.0)][0]" in t, node=fn, key='axes')
+        for sgn in (1, -1):
+            n += 1
+            st, obj, rotated = run(cut, line, sgn)
+            u = obj.attrs.get('_Dislocation__uvws_prim')
+            ok = st == 'ok' and u is not None and np.shape(u) == (3, 3) and len(rotated) == 1 and equal(rotated[0], np.asarray(u, dtype=object), deep=False)
+            det = ''
+            if ok:
+                motion = 3 - cut - line
+                S = sp.zeros(3, 3)       # rows in the basis (m, n, xi): a signed permutation
+                for r in range(3):
+                    for c, base in enumerate((M, Nn, X)):
+                        if all(sp.simplify(u[r][k] - base[k]) == 0 for k in range(3)):
+                            S[r, c] = 1
+                        elif all(sp.simplify(u[r][k] + base[k]) == 0 for k in range(3)):
+                            S[r, c] = -1
+                ok = S[line, 2] == 1 and S[cut, 1] == 1 and abs(S[motion, 0]) == 1 and S.det() == 1 and obj.attrs.get('_Dislocation__lineindex') == line and obj.attrs.get('_Dislocation__cutindex') == cut \
+                    and obj.attrs.get('_Dislocation__motionindex') == motion and obj.attrs.get('_Dislocation__rcell') == 'RCELL'
+                det = 'rows in the (m, n, ξ) basis: %s; indices line/cut/motion %s/%s/%s' % (S.tolist(), obj.attrs.get('_Dislocation__lineindex'), obj.attrs.get('_Dislocation__cutindex'), obj.attrs.get('_Dislocation__motionindex'))
+            ctx.ob('ORIENT', loc, 'n along %saxis %d, ξ along %saxis %d: the cut / line indices are those axes, row %d of the rotation indices is the line vector, row %d the plane-normal vector, the third is ±m with the sign that keeps the cell '
+                   'right-handed, the motion index is the remaining one, and the primitive cell is rotated with exactly those rows' % ('+' if sgn > 0 else '-', cut, '+' if sgn > 0 else '-', line, line, cut), bool(ok), det, node=fn, key='arm %d %d %d' % (cut, line, sgn))
+    ctx.floor('ORIENT', n, 12)
+    verd = [run(k, k)[0] for k in range(3)]
+    ctx.ob('ORIENT', loc, 'a solution whose n and ξ point along the same axis is refused', all(v == 'raise' for v in verd), str(verd), node=fn, key='motion')
 
 
 def shifts(ctx):
